@@ -17,7 +17,9 @@ EXPLANATION = (
     "differentiation variables) is the filter object's representation invariant, established by the constructors' contracts (C04/C14)."
 )
 ASSUMPTIONS = [
-    "D-diff: Matrix(F).jacobian(X)[r,c] = diff(F_r, X_c) and iterating a sympy Matrix is row-major (representation invariant of the filter object)",
+    "D-diff (weakened after D12): Matrix(F).jacobian(X)[r,c] is the partial derivative of the real function F_r WHEN sympy returns it in closed form (no unevaluated Derivative); nothing is assumed about an entry left unevaluated; iterating a sympy Matrix is row-major",
+    "D-dummy: Dummy() returns a symbol distinct from every existing symbol; D-xr: Matrix.xreplace renames entry-wise and neither creates nor removes Derivative nodes; D-ren (mathematics): differentiation commutes with an injective renaming of the symbols",
+    "accepted definitions: the user's own expressions contain no unevaluated Derivative / Integral / Subs",
     "D-lam / C01.3: BasicBlock.execute yields ev(expr_j, E) for any environment E consistent with the positional binding (caller-side contract; positional alignment is proved at each call site)",
     "D-np: np.zeros / cell stores (numpy model); A-NP1 size-1 arrays as scalars",
     "accepted models: symbols of state, calibration, control and dt pairwise distinct (so the named inputs determine an environment)",
@@ -25,12 +27,15 @@ ASSUMPTIONS = [
 TRUSTED_BASE = ["pvc (own VC generator: /verif/pvc)", "z3 5.1", "python ast module"]
 
 
-def native_jacobians(n, c, k, m, seed=0):
+def native_jacobians(n, c, k, m, seed=0, magnitude=False, cse=None):
     """Run the real filter on a generic model of the given shape; compare every Jacobian entry with exact sympy."""
     import sympy
 
-    sc = scenarios.Scenario(n, c, k, [m], seed=seed)
-    py, ekf = scenarios.build_ekf(sc)
+    sc = scenarios.Scenario(n, c, k, [m], seed=seed, magnitude=magnitude)
+    try:
+        py, ekf = scenarios.build_ekf(sc, config=None if cse is None else {"common_subexpression_elimination": cse})
+    except Exception as e:
+        return [f"constructing the filter for a valid definition raised {type(e).__name__}: {(str(e).splitlines() or [''])[0]}"], sc
     pt = sc.point(seed)
     state, control = scenarios.named_state(ekf, sc, pt), scenarios.named_control(ekf, sc, pt)
     AS = sorted(sc.state, key=lambda s: s.name)
@@ -41,9 +46,11 @@ def native_jacobians(n, c, k, m, seed=0):
         if J.shape != (rows, cols):
             problems.append(f"{name}: shape {J.shape}, expected {(rows, cols)}")
             return
+        sub = {k: sympy.Rational(v.numerator, v.denominator) for k, v in pt.items()}
+        Jx = scenarios.jacobian_at(sympy.Matrix(list(outputs)), list(vars_), sub)
         for r in range(rows):
             for s in range(cols):
-                want = float(scenarios.exact(sympy.diff(outputs[r], vars_[s]), pt))
+                want = float(Jx[r, s])
                 got = float(J[r, s])
                 if abs(got - want) > 1e-9 * max(1.0, abs(want)):
                     problems.append(f"{name}[{r},{s}] = {got}, but d({outputs_names[r]})/d({vars_[s].name}) = {want}")
@@ -119,11 +126,32 @@ def native_sweep(run, shapes):
     run.bounded.append({"what": "native run of the real filter's three Jacobians on generic models vs exact sympy differentiation", "bound": f"{len(shapes)} shapes (n,c,k,m) <= 4, one point each", "failures": fails, "counted_as_proved": False})
 
 
+def has_function(name):
+    import ast
+    import os
+
+    tree = ast.parse(open(os.path.join(driver.REPO, "py/formak/python.py")).read())
+    return any(isinstance(nd, ast.FunctionDef) and nd.name == name for nd in tree.body)
+
+
 def check(run):
+    from checks.ekf_common import magnitude_native, triage_generic
+
     cs = pyekf.callees()
     for c in pyekf.jacobian_contracts():
         rep = run.verify(c, cs)
         triage(run, rep)
+    # the flattened Jacobian programs themselves: WHAT is compiled (the partial derivatives of the real functions, in closed form)
+    extra = [magnitude_native(run.seed)]
+    if has_function("_jacobian"):
+        rep = run.verify(pyekf.RealJacobian(), cs)
+        triage_generic(run, rep, lambda shape, seed, container="set": native_jacobians(*shape, seed=seed), "_jacobian", extra_native=extra)
+    for c, callees in ((pyekf.ConstructProcessNoise(), pyekf.construct_callees()), (pyekf.ConstructSensors(), pyekf.sensors_callees())):
+        rep = run.verify(c, callees)
+        for ob in rep.obligations:
+            if not ob.name.startswith("C03."):
+                ob.name = "C03.via." + ob.name
+        triage_generic(run, rep, lambda shape, seed, container="set": native_jacobians(*shape, seed=seed), c.key.rsplit(".", 1)[-1], extra_native=extra)
     if run.tier == "thorough" or any(r.status != "ok" for r in run.reports) or run.undecided:
         shapes = [(2, 0, 1, 1), (3, 1, 2, 2), (2, 2, 0, 3), (1, 0, 1, 2), (3, 0, 2, 4), (4, 1, 1, 2)] if run.tier == "thorough" else [(3, 1, 2, 2), (2, 0, 1, 3)]
         native_sweep(run, shapes)
@@ -133,6 +161,10 @@ def check(run):
 
 
 def replay_file(payload):
+    if payload["inputs"].get("magnitude_jacobians"):
+        from checks.ekf_common import replay_magnitude
+
+        return replay_magnitude(payload["inputs"])
     if payload["inputs"].get("sequence"):
         from checks.ekf_common import replay_sequence
 
